@@ -34,6 +34,7 @@ static TasmanianSparseGrid make(int variant){
   if (fam == "Global") g.makeGlobalGrid(2, outs, 3, type_level, rule_clenshawcurtis);
   else if (fam == "Sequence") g.makeSequenceGrid(2, outs, 3, type_level, rule_leja);
   else if (fam == "LocalPolynomial") g.makeLocalPolynomialGrid(2, outs, 3, (variant % 3) + 1, rule_localp);
+  else if (fam == "LocalPolynomialB") g.makeLocalPolynomialGrid(2, outs, 2, (variant % 3) + 1, (variant % 2) ? rule_localpb : rule_semilocalp);
   else if (fam == "Wavelet") g.makeWaveletGrid(2, outs, 2, 1);
   else g.makeFourierGrid(2, outs, 2, type_level);
   if (variant % 3 == 1) g.setDomainTransform(std::vector<double>{-1.5, 2.0}, std::vector<double>{3.0, 4.5});
@@ -48,7 +49,7 @@ static TasmanianSparseGrid make(int variant){
       else if (fam == "Fourier") g.updateFourierGrid(3, type_level);
       else g.setSurplusRefinement(1.E-4, refine_classic, -1);
     }else if (variant >= 2){
-      if (fam == "LocalPolynomial" || fam == "Wavelet") g.setSurplusRefinement(1.E-3, refine_classic, -1);
+      if (fam == "LocalPolynomial" || fam == "LocalPolynomialB" || fam == "Wavelet") g.setSurplusRefinement(1.E-3, refine_classic, -1);
       else g.setAnisotropicRefinement(type_iptotal, 5, 0);
     }
   }
@@ -160,6 +161,27 @@ def jobs(tier, seed, prop):
                        assumed=["selectTensors returns a non-empty set (any relation to the current tensors); clearRefinement / makeGrid leave no pending tensors; set difference and union as named",
                                 "setSurplusRefinement (Global with sequence rules) builds its pending set from the loaded points plus children: a superset by construction (not under this contract)"],
                        label="Grid%s::updateGrid leaves updated_tensors empty or a superset of tensors (well_formed clause used by the round trip)" % fam))
+    if prop != "C14":
+        Rm = X.Rules()
+        mt, minfo = iotape.emit_rulemap(Rm)
+        mh = '''
+static size_t tsg_find_index(const TypeOneDRule *a, size_t n, TypeOneDRule v){ size_t k = 0; while (k < n && !(a[k] == v)) k++; return k; }
+''' + mt + '''
+void h_rulemap(void){
+  TypeOneDRule a_rule = (TypeOneDRule) nondet_int();
+  __CPROVER_assume(a_rule >= rule_none && a_rule <= rule_fourier);      /* every enumerator of TypeOneDRule (contiguous, checked by the tables unit) */
+  int code = getRuleInt_from_rule(a_rule);
+  __CPROVER_assert(getRuleInt_from_int(code) == a_rule, "C06 binary format: the integer code written for a rule is read back as the same rule, for every rule");
+  int a_code = nondet_int();
+  TypeOneDRule r = getRuleInt_from_int(a_code);
+  __CPROVER_assert(r >= rule_none && r <= rule_fourier, "C14 any integer found in a file decodes to an enumerator (unknown codes give rule_none)");
+  __CPROVER_assert(0, "VACUITY-CANARY");
+}
+'''
+        out.append(Job("iotape.rulemap", '#include "tsg_shim.h"\nint tsg_exc;\n' + enums + mh, "h_rulemap", unwind=64, timeout=120, replay=make_replay(prop, "LocalPolynomialB"),
+                       functions=["%s:%d %s" % (f["file"], f["line"], f["name"]) for f in minfo["functions"]], info=minfo,
+                       assumed=["std::find_if / std::distance over the vector as a linear search (rule R7-find-if-index)", "the string names of the ASCII format (std::map<std::string, ...>) are not under contract"],
+                       label="IO::getRuleInt: decode(encode(rule)) == rule for every rule of the binary format"))
     # top-level binary framing
     Rt = X.Rules()
     tt, tinfo = iotape.emit_top_binary(Rt)
